@@ -13,7 +13,9 @@ SPEC = {
         "thorough": ["c22_json_str_2_bytes"],
     },
     "harness_file": {"c22_json": ("json.rs", "src/utils/json.rs"), "c22_label": ("metrics_http.rs", "src/http/metrics.rs")},
-    "timeout": {"quick": 1500, "thorough": 10000},
+    "timeout": {"quick": 1500, "thorough": 10000, "replay": 900},
+    "native_fallback": {"c22_json_str_1_byte": ("native_c22", "c22_native_json_str"),
+                        "c22_json_str_2_bytes": ("native_c22", "c22_native_json_str")},
 }
 
 
